@@ -385,3 +385,40 @@ pub fn drop_deep(v: Value) {
         }
     }
 }
+
+/// The same iterator consumed in the other standard ways (`skip`, `nth`, `step_by`, `last`,
+/// `count`, `fold`, `size_hint`) must yield the same elements as plain `next()` calls: an
+/// iterator that overrides one of these (or its size hint) and lets its running code-map
+/// offset go stale is caught here.  The adaptors are applied to the RAW iterator `mk()`
+/// (a `map` in between would hide an overridden `nth`); `sig` projects an item to its offsets.
+pub fn styles_agree<I: Iterator, T: PartialEq + Clone>(mk: &dyn Fn() -> I, sig: &dyn Fn(I::Item) -> T) -> bool {
+    let mut base: Vec<T> = vec![];
+    let mut it = mk();
+    while let Some(x) = it.next() {
+        base.push(sig(x));
+    }
+    let n = base.len();
+    let mut ok = mk().count() == n
+        && mk().last().map(|x| sig(x)) == base.last().cloned()
+        && mk().fold(0usize, |a, _| a + 1) == n;
+    let (lo, hi) = mk().size_hint();
+    ok &= lo <= n && hi.map_or(true, |h| h >= n);
+    ok &= mk().map(|x| sig(x)).collect::<Vec<T>>() == base;
+    for k in 1..=n.min(3) {
+        ok &= mk().skip(k).map(|x| sig(x)).collect::<Vec<T>>() == base[k..].to_vec();
+        let mut it = mk();
+        ok &= it.nth(k - 1).map(|x| sig(x)) == Some(base[k - 1].clone());
+        let mut rest: Vec<T> = vec![];
+        while let Some(x) = it.next() {
+            rest.push(sig(x));
+        }
+        ok &= rest == base[k..].to_vec();
+    }
+    if n >= 2 {
+        ok &= mk().step_by(2).map(|x| sig(x)).collect::<Vec<T>>() == base.iter().step_by(2).cloned().collect::<Vec<T>>();
+        ok &= mk().nth(n).is_none();
+        let mut it = mk();
+        ok &= it.nth(n - 1).map(|x| sig(x)) == Some(base[n - 1].clone()) && it.next().is_none();
+    }
+    ok
+}
